@@ -15,7 +15,7 @@ def main():
     rng = chk.rng
     abbrs = D.abbreviations()
     unique = [a for a in abbrs if len(D.TZ().get(a, [])) == 1]
-    scale = (10 if chk.thorough else 1) * (3 if chk.broken else 1)
+    scale = (20 if chk.thorough else 1) * (3 if chk.broken else 1)
 
     fam = {
         'corpus': D.corpus(),
@@ -62,6 +62,34 @@ def main():
                 kinds[k] = kinds.get(k, 0) + 1
         chk.coverage['tags_emitted'] = kinds
 
+    # whole catalogues (.po / .pot / .mo) through Checker.check(): header parsing, file-type flags, then check_dates
+    import tempfile, shutil
+    fdir = tempfile.mkdtemp(prefix='i18n-verif-c18.')
+    fcases = D.file_cases(rng, 250 * scale, pool)
+    fpaths = []
+    try:
+        for i, (c, kind) in enumerate(fcases):
+            try:
+                fpaths.append(D.write_catalog(rng, c, kind, fdir, i))
+            except Exception as exc:
+                raise common.Infra(f'cannot write a catalogue: {exc}')
+        bad_files = []
+        if driver_ok:
+            lines = [c.line() for c, _ in fcases]
+            outs = [D.impl_file(c, p) for (c, _), p in zip(fcases, fpaths)]
+            dis, _ = chk.stream('date-file', lines, outs)
+            bad_files = dis
+        file_reports = []
+        for i in list(bad_files) + list(range(len(fcases))):
+            c, kind = fcases[i]
+            rep = D.check_file_property(c, kind, fpaths[i])
+            if rep is not None:
+                file_reports.append(rep)
+                break
+        chk.coverage['files'] = {'catalogues': len(fcases), 'kinds': {k: sum(1 for _, x in fcases if x == k) for k in ('po', 'pot', 'mo')}}
+    finally:
+        shutil.rmtree(fdir, ignore_errors=True)
+
     # falsifier: the statement itself on the real code against the independent reference
     cex = None
     tried = 0
@@ -86,7 +114,13 @@ def main():
                 if chk.violation(rep['kind'], rep, key=key):
                     cex = rep
                     break
-    chk.evaluations += tried + tried_ctx
+    if cex is None:
+        for rep in file_reports:
+            key = rep.pop('key')
+            if chk.violation(rep['kind'], rep, key=key):
+                cex = rep
+                break
+    chk.evaluations += tried + tried_ctx + len(fcases)
     chk.coverage['falsifier'] = {'fix_inputs_vs_reference': tried, 'check_dates_contexts_vs_reference': tried_ctx, 'found': cex is not None}
     if cex is None and chk.broken:
         chk.violation('proof obligation or correspondence no longer checks', {'broken': chk.broken}, no_input=True)
@@ -98,6 +132,7 @@ def main():
              'garbage; hints: none, valid, malformed; fixed boundary list (34 years x Feb 28/29/30, month/day 00/13/32, 24:00, :60, '
              '+2359/+2400/-0000/+9959, the epoch minute with offsets across it); check_dates contexts with utc_now patched to the instant '
              '-1us/0/+1us/+-1min, to the epoch +-, to datetime.min/max; duplicates, Publican, template and binary exemptions; '
+             'whole .po/.pot/.mo catalogues with such date fields through Checker.check() (date tags only); '
              'non-trivial = distinct accepted normal form',
         trusted=['Lean 4.33 kernel', 'axioms: propext, Classical.choice, Quot.sound only',
                  'tools/translate/date2lean.py (dumps lib.gettext._timezones, epoch, the white-space class of the running interpreter; pins the regex texts)',
